@@ -4,19 +4,25 @@
 // Serialize() method issuing KeyValue requests in declaration order, byte containers, strings) — and
 // prints the loaded tree.
 //   ld <m|s> <pol> <shape> <hexdoc>     m = from std::string, s = from std::istream; pol = mismatch,overflow in T|S
-//   shape := n | T | F | i<kind>:+0 | f0 | d0 | s- | b- | [shape] | {s<hexname>=shape;...}
+//   shape := n | T | F | i<kind>:+0 | f0 | d0 | s- | b- | [shape] | {s<hexname>=shape;...} | <kshape=shape> | (N|shape) | v
 //            (the tree syntax of drv_mpsave.cpp; scalars give the kind, a vector holds exactly one element: the
-//             shape of its elements; the target is value-initialised from it)
+//             shape of its elements; <k=v> is std::map<K, v> with K = std::string (k = s-) or an integer type
+//             (k = i<kind>:+0), loaded by the library's own SerializeMapImpl (MapLoadMode::Clean); the target is
+//             value-initialised from the shape); (N|e) is std::array<e, N> (the library's SerializeFixedSizeArray),
+//             v is std::vector<bool> (the library's own overload).  A loaded map prints as {key=value;...} in the
+//             map's order, a fixed-size array and a vector<bool> as [..;..]
 //   answer: OK <tree> | ERR <cat>
 #include "common.h"
 #include <cmath>
 #include <cstring>
+#include <map>
 #include <memory>
 #include <sstream>
 #include <vector>
 #include "bitserializer/bit_serializer.h"
 #include "bitserializer/msgpack_archive.h"
 #include "bitserializer/types/std/vector.h"
+#include "bitserializer/serialization_detail/generic_map.h"
 
 namespace dyn {
 struct Node;
@@ -33,14 +39,73 @@ struct Vec {
 	[[nodiscard]] size_t size() const { return items.size(); }
 };
 
+// fixed-size array of nodes of one shape (std::array<T, N>), loaded by SerializeFixedSizeArray
+struct Fix {
+	std::vector<Node> items;
+	[[nodiscard]] size_t size() const { return items.size(); }
+};
+template <class TArchive> void SerializeArray(TArchive& ar, Fix& v) { BitSerializer::Detail::SerializeFixedSizeArray(ar, v.items.begin(), v.items.end()); }
+
+// std::map<K, Node> behind a type-erased, deep-copying handle (Node is incomplete here)
+struct MapBase {
+	virtual ~MapBase() = default;
+	[[nodiscard]] virtual std::unique_ptr<MapBase> clone() const = 0;
+	[[nodiscard]] virtual std::string print() const = 0;
+};
+struct MapHandle {
+	std::unique_ptr<MapBase> p;
+	int kk = -1;                     // key type: -1 = std::string, 0..7 = u8 u16 u32 u64 s8 s16 s32 s64
+	MapHandle() = default;
+	MapHandle(const MapHandle& o) : p(o.p ? o.p->clone() : nullptr), kk(o.kk) {}
+	MapHandle(MapHandle&&) = default;
+	MapHandle& operator=(const MapHandle& o) { if (this != &o) { p = o.p ? o.p->clone() : nullptr; kk = o.kk; } return *this; }
+	MapHandle& operator=(MapHandle&&) = default;
+};
+
 struct Node {
-	char kind = 'n';                 // n B i f d s b [ {
+	char kind = 'n';                 // n B i f d s b [ { <
 	int ik = 0;                      // 0..7 = u8 u16 u32 u64 s8 s16 s32 s64
 	bool b = false; uint64_t u = 0; int64_t i = 0; float f = 0; double d = 0;
 	std::string s; std::vector<unsigned char> bytes;
 	Vec arr;
 	std::vector<std::pair<std::string, Node>> obj;
+	MapHandle map;
+	Fix fix;
+	std::vector<bool> vb;
 };
+
+std::string print_node(const Node& n);
+std::string print_key(const std::string& k);
+std::string print_key_int(int kk, int64_t i, uint64_t u);
+
+// the map target: the interface SerializeMapImpl needs of a std::map whose mapped values are nodes of one shape
+template <class K>
+struct MapOf : MapBase {
+	using key_type = K;
+	using mapped_type = Node;
+	using iterator = typename std::map<K, Node>::iterator;
+	int kk = -1;
+	std::shared_ptr<Node> proto;
+	std::map<K, Node> items;
+	void clear() { items.clear(); }
+	iterator begin() { return items.begin(); }
+	iterator end() { return items.end(); }
+	iterator find(const K& k) { return items.find(k); }
+	iterator try_emplace(iterator hint, K&& key) { return items.try_emplace(hint, std::move(key), *proto); }
+	Node& operator[](const K& k) { return items.try_emplace(k, *proto).first->second; }
+	[[nodiscard]] std::unique_ptr<MapBase> clone() const override { return std::make_unique<MapOf<K>>(*this); }
+	[[nodiscard]] std::string print() const override {
+		std::string r = "{"; bool first = true;
+		for (auto& kv : items) {
+			if (!first) r += ";"; first = false;
+			if constexpr (std::is_same_v<K, std::string>) r += print_key(kv.first);
+			else r += print_key_int(kk, static_cast<int64_t>(kv.first), static_cast<uint64_t>(kv.first));
+			r += "=" + print_node(kv.second);
+		}
+		return r + "}";
+	}
+};
+template <class TArchive, class K> void SerializeObject(TArchive& ar, MapOf<K>& m) { BitSerializer::Detail::SerializeMapImpl(ar, m); }
 
 inline void Vec::resize(size_t n) { items.resize(n, *proto); }
 inline Node& Vec::emplace_back() { items.push_back(*proto); return items.back(); }
@@ -75,6 +140,20 @@ bool with_target(Node& v, F&& f) {
 	case 's': return f(v.s);
 	case 'b': return f(v.bytes);
 	case '[': return f(v.arr);
+	case '(': return f(v.fix);
+	case 'v': return f(v.vb);
+	case '<':
+		switch (v.map.kk) {
+		case 0: return f(static_cast<MapOf<uint8_t>&>(*v.map.p));
+		case 1: return f(static_cast<MapOf<uint16_t>&>(*v.map.p));
+		case 2: return f(static_cast<MapOf<uint32_t>&>(*v.map.p));
+		case 3: return f(static_cast<MapOf<uint64_t>&>(*v.map.p));
+		case 4: return f(static_cast<MapOf<int8_t>&>(*v.map.p));
+		case 5: return f(static_cast<MapOf<int16_t>&>(*v.map.p));
+		case 6: return f(static_cast<MapOf<int32_t>&>(*v.map.p));
+		case 7: return f(static_cast<MapOf<int64_t>&>(*v.map.p));
+		default: return f(static_cast<MapOf<std::string>&>(*v.map.p));
+		}
 	default: { ObjView o{ v }; return f(o); }
 	}
 }
@@ -95,7 +174,7 @@ using dyn::Node;
 
 static Node parse(const std::string& t, size_t& p) {
 	Node n; char c = t.at(p++);
-	auto token = [&]() { size_t q = p; while (q < t.size() && t[q] != ';' && t[q] != ']' && t[q] != '}' && t[q] != '=') ++q; std::string r = t.substr(p, q - p); p = q; return r; };
+	auto token = [&]() { size_t q = p; while (q < t.size() && t[q] != ';' && t[q] != ']' && t[q] != '}' && t[q] != '=' && t[q] != '>' && t[q] != '|' && t[q] != ')') ++q; std::string r = t.substr(p, q - p); p = q; return r; };
 	switch (c) {
 	case 'n': n.kind = 'n'; break;
 	case 'T': case 'F': n.kind = 'B'; break;
@@ -118,6 +197,32 @@ static Node parse(const std::string& t, size_t& p) {
 		n.arr.proto = std::make_shared<Node>(parse(t, p));
 		if (t.at(p) != ']') throw std::runtime_error("a vector shape holds one element shape");
 		++p;
+		break;
+	}
+	case 'v': n.kind = 'v'; break;
+	case '(': {
+		n.kind = '(';
+		const size_t count = std::stoul(token());
+		if (count > 4096 || t.at(p) != '|') throw std::runtime_error("bad array shape"); ++p;
+		Node e = parse(t, p);
+		if (t.at(p) != ')') throw std::runtime_error("bad array shape"); ++p;
+		n.fix.items.assign(count, e);
+		break;
+	}
+	case '<': {
+		n.kind = '<';
+		Node k = parse(t, p);
+		if (k.kind != 's' && k.kind != 'i') throw std::runtime_error("map keys are strings or integers");
+		if (t.at(p) != '=') throw std::runtime_error("bad map shape"); ++p;
+		auto proto = std::make_shared<Node>(parse(t, p));
+		if (t.at(p) != '>') throw std::runtime_error("bad map shape"); ++p;
+		n.map.kk = k.kind == 's' ? -1 : k.ik;
+		auto make = [&](auto tag) { using K = decltype(tag); auto m = std::make_unique<dyn::MapOf<K>>(); m->kk = n.map.kk; m->proto = proto; n.map.p = std::move(m); };
+		switch (n.map.kk) {
+		case 0: make(uint8_t{}); break; case 1: make(uint16_t{}); break; case 2: make(uint32_t{}); break; case 3: make(uint64_t{}); break;
+		case 4: make(int8_t{}); break; case 5: make(int16_t{}); break; case 6: make(int32_t{}); break; case 7: make(int64_t{}); break;
+		default: make(std::string{}); break;
+		}
 		break;
 	}
 	case '{':
@@ -172,12 +277,32 @@ static std::string print(const Node& n) {
 		for (size_t i = 0; i < n.arr.items.size(); ++i) { if (i) r += ";"; r += print_elem(n.arr.items[i], *n.arr.proto); }
 		return r + "]";
 	}
+	case '<': return n.map.p->print();
+	case '(': {
+		std::string r = "[";
+		for (size_t i = 0; i < n.fix.items.size(); ++i) { if (i) r += ";"; r += print(n.fix.items[i]); }
+		return r + "]";
+	}
+	case 'v': {
+		std::string r = "[";
+		for (size_t i = 0; i < n.vb.size(); ++i) { if (i) r += ";"; r += n.vb[i] ? "T" : "F"; }
+		return r + "]";
+	}
 	default: {
 		std::string r = "{";
 		for (size_t i = 0; i < n.obj.size(); ++i) { if (i) r += ";"; r += "s" + vh::fmt_hex(n.obj[i].first) + "=" + print(n.obj[i].second); }
 		return r + "}";
 	}
 	}
+}
+
+std::string dyn::print_node(const Node& n) { return print(n); }
+std::string dyn::print_key(const std::string& k) { return "s" + vh::fmt_hex(k); }
+std::string dyn::print_key_int(int kk, int64_t i, uint64_t u) {
+	static const char* kinds[] = { "u8", "u16", "u32", "u64", "s8", "s16", "s32", "s64" };
+	char buf[48];
+	if (kk < 4) { std::snprintf(buf, sizeof buf, "+%llx", (unsigned long long)u); return std::string("i") + kinds[kk] + ":" + buf; }
+	return std::string("i") + kinds[kk] + ":" + shex(i);
 }
 
 template <class T> static void load_as(T& v, const std::string& data, bool stream, const BitSerializer::SerializationOptions& opt) {
